@@ -63,8 +63,18 @@ class C11(Check):
                     reraise_control(ex)
                     if (kind == "sqlite" and is_refusal(ex)) or engine_quirk(ex, run.case2, run.ref):
                         continue
-                    out.fail("internal-error", f"{kind}:export:{exc_name(ex)}", f"{kind} export at {v} raised {exc_name(ex)}: {str(ex)[:200]}")
-                    continue
+                    df = None
+                    if kind == "polars":
+                        # the Polars optimizer panics / raises on a plan that collects without it (DESIGN 4.15 g)
+                        try:
+                            df = build.export_polars_noopt(tbl)
+                            out.count("engine_quirk:polars_optimizer_error")
+                        except BaseException as ex2:  # noqa: BLE001
+                            reraise_control(ex2)
+                            df = None
+                    if df is None:
+                        out.fail("internal-error", f"{kind}:export:{exc_name(ex)}", f"{kind} export at {v} raised {exc_name(ex)}: {str(ex)[:200]}")
+                        continue
                 cols = list(df.columns)
                 out.count("tables_checked")
                 probes = {
